@@ -12,6 +12,8 @@ All obligations are pointwise at an arbitrary pixel g (arrays are element functi
 """
 from __future__ import annotations
 
+import ast
+
 from pyvc import arrays
 from .common import *  # noqa: F401,F403
 from . import detmodel as D
@@ -465,7 +467,28 @@ CDM_REPLAY = model_replay("""
 from pyxel.models.charge_transfer.cdm import run_cdm_parallel, run_cdm_serial
 rng = np.random.default_rng(1)
 VIOLATED, DETAIL = False, ''
+# heavy trapping of a faint packet by several species (each species must capture from what the previous ones left)
+from pyxel.models.charge_transfer import cdm as cdm_model
+import verif_probes as VP
+for direction in ('parallel', 'serial'):
+    for n_species in (2, 3, 5):
+        det = VP.detector(rows=24, cols=24)
+        det.environment.temperature = 273.15
+        frame = np.zeros((24, 24)); frame[10, :] = 10.0; frame[:, 10] = 10.0
+        det.pixel.array = frame.copy()
+        try:
+            cdm_model(detector=det, direction=direction, beta=0.3, trap_release_times=[5e-3, 6e-3, 7e-3, 8e-3, 9e-3][:n_species], trap_densities=[1e12] * n_species,
+                      sigma=[1e-15] * n_species, full_well_capacity=1e5, max_electron_volume=1e-10, transfer_period=1e-3, charge_injection=False)
+        except Exception as e:
+            DETAIL = 'cdm model raised ' + repr(e)[:200]
+            continue
+        out = np.array(det.pixel.array)
+        if out.min() < 0 or out.sum() > frame.sum() * (1 + 1e-12) + 1e-9:
+            VIOLATED, DETAIL = True, f'cdm {direction}, {n_species} species, faint lines: min {out.min()}, total in {frame.sum()}, total out {out.sum()}'
+            break
+    if VIOLATED: break
 for fn in (run_cdm_parallel, run_cdm_serial):
+    if VIOLATED: break
     for trial in range(20):
         a = rng.choice([0.0, 0.005, 5.0, 300.0, 5e4], size=(6, 5)) * rng.uniform(0.5, 1.5, (6, 5))
         k = int(rng.integers(1, 4))
@@ -477,7 +500,26 @@ for fn in (run_cdm_parallel, run_cdm_serial):
 """, "transfer never yields negative pixels nor more total charge than it received")
 
 
-def cdm_specs(qual, arr_name, trap_name, outer, mid, inner, idx_of):
+def loop_nest(fnode):
+    """The chain of nested for-loops of a kernel, outermost first (source order)."""
+    out = []
+
+    def walk(body):
+        for st_ in body:
+            if isinstance(st_, ast.For):
+                out.append(st_)
+                walk(st_.body)
+                return True
+            for fld in ("body", "orelse"):
+                sub = getattr(st_, fld, None)
+                if isinstance(sub, list) and walk(sub):
+                    return True
+        return False
+    walk(fnode.body)
+    return out
+
+
+def cdm_specs(qual, arr_name, trap_name, fnode, row_var, col_var, trap_var):
     """Loop contracts of the CDM kernels. State: the frame `array` and the trap occupancy `no`; ghost PHI = sum(array) +
     sum(no). Invariant of all three loops: every pixel >= 0, every trap occupancy >= 0, PHI <= PHI0. The innermost
     iteration changes exactly one pixel and one trap slot, and not upward in total (local step)."""
@@ -511,7 +553,9 @@ def cdm_specs(qual, arr_name, trap_name, outer, mid, inner, idx_of):
         hav(ex, fr, k)
         st = ex.st
         fa, fn = st.ghost["CDM_HEAD"]
-        i_, j_, t_ = idx_of(fr, k)
+        inner_var = loop_nest(fnode)[-1].target.id
+        val = lambda name: k if name == inner_var else z_int(int_of(fr.locals[name]))
+        i_, j_, t_ = val(row_var), val(col_var), val(trap_var)
         a = fa(i_, j_)
         # library facts about x ** y on positive bases, instantiated at the pixel of this iteration
         st.assume(z3.Implies(a > 0, z3.And(upow(a, BETA) == a * upow(a, BETA - 1), upow(a, BETA - 1) > 0, upow(a, 1 - BETA) > 0)))
@@ -530,16 +574,28 @@ def cdm_specs(qual, arr_name, trap_name, outer, mid, inner, idx_of):
         st.oblige("cdm.local_step[pixel + trap content does not grow]", a_new + n_new <= a_old + n_old, {"replay": CDM_REPLAY})
         st.oblige("cdm.local_step[pixel is zero or at least 0.01]", z3.Or(a_new == 0, a_new >= z3.RealVal("0.01")), {"replay": CDM_REPLAY})
         st.ghost["PHI"] = st.ghost["PHI"] - a_old - n_old + a_new + n_new
-    return {(qual, 0): LoopSpec(outer, inv, havoc=hav, modifies=mods, name="cdm.outer"),
-            (qual, 1): LoopSpec(mid, inv, havoc=hav, modifies=mods, name="cdm.traps"),
-            (qual, 2): LoopSpec(inner, inv, havoc=hav_inner, modifies=mods, after_body=after_inner, name="cdm.inner")}
+    # The same invariant serves every loop of the nest, whatever the nesting ORDER of rows / columns / trap species is in this
+    # version of the kernel: the nest is discovered from the source, the innermost loop carries the local-step obligations.
+    nest = loop_nest(fnode)
+    if len(nest) != 3:
+        raise Unsupported(f"CDM kernel: expected a nest of three for-loops, found {len(nest)}")
+    specs = {}
+    for ordinal, loop in enumerate(nest):
+        innermost = ordinal == len(nest) - 1
+        specs[(qual, ordinal)] = LoopSpec(None, inv, havoc=hav_inner if innermost else hav, modifies=mods, after_body=after_inner if innermost else None,
+                                          name="cdm.inner" if innermost else f"cdm.loop{ordinal}")
+    return specs
 
 
-def cdm_unit(fname, trap_name, outer, mid, inner, idx_of, extra_kw):
+def cdm_unit(fname, trap_name, row_var, col_var, trap_var, extra_kw):
     def un(u: Unit):
         fi = u.fn(f"{CDMQ}::{fname}")
         cfg = Cfg("real")
-        cfg.loops.update(cdm_specs(fi.qualname, "array", trap_name, outer, mid, inner, idx_of))
+        try:
+            cfg.loops.update(cdm_specs(fi.qualname, "array", trap_name, fi.node, row_var, col_var, trap_var))
+        except Unsupported as e:
+            u.undecide(f"cdm.contract_applicable[{fname}]", fi.qualname, str(e))
+            return
         u.internal_replay, u.internal_witness = CDM_REPLAY, {}
         x, y, q = z3.Real("x"), z3.Real("y"), z3.Int("q")
         fa0 = z3.Function("cdm_in", z3.IntSort(), z3.IntSort(), z3.RealSort())
@@ -571,8 +627,6 @@ def cdm_unit(fname, trap_name, outer, mid, inner, idx_of, extra_kw):
     return un
 
 
-unit("C15", "cdm.parallel")(cdm_unit("run_cdm_parallel", "no", "i in range(0, ydim)", "k in range(kdim_p)", "j in range(xdim)",
-                                      lambda fr, k: (z_int(int_of(fr.locals["i"])), k, z_int(int_of(fr.locals["k"]))),
+unit("C15", "cdm.parallel")(cdm_unit("run_cdm_parallel", "no", "i", "j", "k",
                                       lambda ex: {"charge_injection": VBool(z3.Bool("charge_injection")), "chg_inj_parallel_transfers": VInt(z3.Int("n_transfers"))}))
-unit("C15", "cdm.serial")(cdm_unit("run_cdm_serial", "sno", "j in range(0, xdim)", "k in range(kdim_s)", "i in range(ydim)",
-                                    lambda fr, k: (k, z_int(int_of(fr.locals["j"])), z_int(int_of(fr.locals["k"]))), lambda ex: {}))
+unit("C15", "cdm.serial")(cdm_unit("run_cdm_serial", "sno", "i", "j", "k", lambda ex: {}))
